@@ -590,6 +590,43 @@ class _ExprInline(ast.NodeTransformer):
     visit_AsyncFunctionDef = visit_FunctionDef
     visit_Lambda = visit_FunctionDef
 
+    def visit_Attribute(self, n: ast.Attribute):
+        # a read of a property that is one `return <expression over self>` (`self.stop_requested`, `send_thread.paused`) reads as
+        # that expression: the receiver is `self` of the class at hand, or a local whose class the resolver knows
+        self.generic_visit(n)
+        if not isinstance(n.ctx, ast.Load) or not isinstance(n.value, ast.Name) or self.depth > MAX_DEPTH:
+            return n
+        P = self.inl.P
+        k = None
+        if self.inl.cls is not None and n.value.id == self.owner.self_name:
+            k = self.inl.cls
+        else:
+            try:
+                from .resolve import Scope
+                sc = getattr(self, "_scope", None)
+                if sc is None:
+                    sc = self._scope = Scope(P, self.owner, self.inl.cls)
+                t = sc.type_of(n.value)
+                k = t if isinstance(t, Cls) and not t.is_external else None
+            except Exception:
+                k = None
+        if k is None:
+            return n
+        pf = P.resolve(k, n.attr)
+        if pf is None or not getattr(pf, "is_property", False) or pf.is_abstract or pf.self_name is None \
+                or getattr(pf.cls, "is_external", False) or _overridden_below(P, pf.cls, n.attr):
+            return n
+        body = _body_wo_doc(pf.node)
+        if len(body) != 1 or not isinstance(body[0], ast.Return) or body[0].value is None:
+            return n
+        ex = body[0].value
+        if any(isinstance(x, ast.Name) and x.id != pf.self_name and isinstance(x.ctx, ast.Load) and not x.id[:1].isupper()
+               and x.id not in ("len", "isinstance", "bool", "int", "str", "os", "math") for x in ast.walk(ex)) \
+                or any(isinstance(x, (ast.Lambda, ast.Yield, ast.YieldFrom, ast.Await, ast.NamedExpr)) for x in ast.walk(ex)):
+            return n
+        self.inl.inlined.append(pf.name)
+        return ast.copy_location(_Subst({pf.self_name: n.value}, {}).visit(_dc(ex)), n)
+
     def visit_Call(self, n: ast.Call):
         self.generic_visit(n)
         h = _helper_for(self.inl.P, self.inl.cls, self.owner, n)
@@ -667,6 +704,16 @@ def inline_view(prog: Program, cls: Optional[Cls], f: Func) -> Func:
     new_body = folded
     node.body = doc + (new_body or [ast.copy_location(ast.Pass(), node)])
     ast.fix_missing_locations(node)
+    # what inlining leaves behind (`result = <test>; if not result: return`, an argument bound to a local that is used once) is
+    # ordinary code again: the statement-level normalisations are applied to it as they were to the source
+    from .normalise import _N
+    try:
+        again = _N().visit(node)
+        if isinstance(again, (ast.FunctionDef, ast.AsyncFunctionDef)):
+            node = again
+            ast.fix_missing_locations(node)
+    except RecursionError:
+        pass
     set_parents(node)
     node._parent = getattr(f.node, "_parent", None)  # type: ignore[attr-defined]
     g = copy.copy(f)
